@@ -118,42 +118,64 @@ def _orientation(pts: Vec, s2: Rat, s1: Rat, i: Rat) -> Rat:
     return (bx - ax) * (cy - ay) - (cx - ax) * (by - ay)
 
 
-def _check_dominated(rc: RuleCtx, fi, w: ast.While, stack_name: str, ev, env) -> bool:
-    """H4: the deepest negative subscript of the stack in the test needs an earlier length conjunct."""
-    res = rc.res
-    ks = []
-    for n in ast.walk(w.test):
+def _neg_subscripts(node, stack_name: str):
+    out = []
+    for n in ast.walk(node):
         if isinstance(n, ast.Subscript) and isinstance(n.value, ast.Name) and n.value.id == stack_name:
             sl = n.slice
-            if isinstance(sl, ast.UnaryOp) and isinstance(sl.op, ast.USub) and isinstance(sl.operand, ast.Constant):
-                ks.append((sl.operand.value, n))
-    if not ks:
-        res.ok("H4", f"{fi.qualname}", "no negative stack subscript in the popping loop test")
+            if isinstance(sl, ast.UnaryOp) and isinstance(sl.op, ast.USub) and isinstance(sl.operand, ast.Constant) and isinstance(sl.operand.value, int):
+                out.append((sl.operand.value, n))
+    return out
+
+
+def _check_dominated(rc: RuleCtx, fi, w: ast.While, stack_name: str, ev, env) -> bool:
+    """H4: every stack[-k] read in the popping loop (test or body) happens only after a test that implies
+    len(stack) >= k: earlier conjuncts of the loop test for reads in the test, the whole loop test for reads
+    in the body."""
+    res = rc.res
+    in_test = _neg_subscripts(w.test, stack_name)
+    in_body = [x for st in w.body for x in _neg_subscripts(st, stack_name)]
+    if not in_test and not in_body:
+        res.ok("H4", f"{fi.qualname}", "no negative stack subscript in the popping loop")
         return True
-    kmax = max(k for k, _n in ks)
-    first_use = min((n.col_offset + 10000 * n.lineno) for _k, n in ks)
-    ok = False
-    bound = None
-    if isinstance(w.test, ast.BoolOp) and isinstance(w.test.op, ast.And):
+    fr = Frame(ev, fi, 0)
+    problems = []
+    bound_t = None
+    if in_test:
+        kmax = max(k for k, _n in in_test)
         guards = []
-        for v in w.test.values:
-            if any((isinstance(n, ast.Subscript) and isinstance(n.value, ast.Name) and n.value.id == stack_name) for n in ast.walk(v)):
-                break
-            guards.append(v)
+        if isinstance(w.test, ast.BoolOp) and isinstance(w.test.op, ast.And):
+            for v in w.test.values:
+                if _neg_subscripts(v, stack_name):
+                    break
+                guards.append(v)
         if guards:
-            fr = Frame(ev, fi, 0)
             g = g_and(*[fr.cond(x, env) for x in guards])
-            bound = int_lower_bound(g, sym("S"))
-            if bound is not None and bound >= kmax:
-                ok = True
-    if ok:
-        res.ok("H4", fi.qualname, f"stack[-{kmax}] read only after a conjunct implying len(stack) >= {bound}")
-    else:
-        res.violation("H4", fi.module, fi.name, w,
-                      f"stack[-{kmax}] is read in the popping loop without a preceding test that the stack has at least {kmax} elements "
-                      f"(the loop can pop the stack below that: IndexError on collinear input)",
-                      ast.unparse(w.test), f"len({stack_name}) > {kmax - 1} and ...", construct="stack guard")
-    return ok
+            bound_t = int_lower_bound(g, sym("S"))
+        if bound_t is None or bound_t < kmax:
+            problems.append((kmax, "in the loop test"))
+    if in_body:
+        kmax_b = max(k for k, _n in in_body)
+        # the whole test guards the body; subscripts inside the test itself are not a problem for this bound
+        gb = None
+        try:
+            parts = w.test.values if isinstance(w.test, ast.BoolOp) and isinstance(w.test.op, ast.And) else [w.test]
+            gb = g_and(*[fr.cond(x, env) for x in parts if not _neg_subscripts(x, stack_name)])
+        except Unsupported:
+            gb = None
+        bound_b = int_lower_bound(gb, sym("S")) if gb is not None else None
+        if bound_b is None or bound_b < kmax_b:
+            problems.append((kmax_b, "in the loop body"))
+    if not problems:
+        kall = max([k for k, _n in in_test + in_body])
+        res.ok("H4", fi.qualname, f"stack[-{kall}] read only after a test implying len(stack) >= {kall}")
+        return True
+    kmax, where = problems[0]
+    res.violation("H4", fi.module, fi.name, w,
+                  f"stack[-{kmax}] is read {where} of the popping loop without a preceding test that the stack has at least {kmax} elements "
+                  f"(the loop can pop the stack below that: IndexError on collinear input)",
+                  ast.unparse(w.test), f"len({stack_name}) > {kmax - 1} and ...", construct="stack guard")
+    return False
 
 
 def _chain(rc: RuleCtx, name: str, pop_signs):
@@ -190,18 +212,33 @@ def _chain(rc: RuleCtx, name: str, pop_signs):
     benv = dict(env)
     benv[loop.target.id] = i
     benv[sname] = ev.symbol("stack", True)
+    # temporaries hoisted in front of the popping loop (e.g. candidate = points[i])
+    frp = Frame(ev, fi, 0)
+    try:
+        frp.block(loop.body[:loop.body.index(w)], benv, TRUE)
+    except Unsupported as e:
+        raise AnalysisError(f"{fi.qualname}: scan body not modelled: {e}")
     # popping loop only pops
-    body_calls = [st for st in w.body]
-    only_pop = len(body_calls) == 1 and isinstance(body_calls[0], ast.Expr) and isinstance(body_calls[0].value, ast.Call) \
-        and ast.unparse(body_calls[0].value) == f"{sname}.pop()"
+    wenv = dict(benv)
+    try:
+        wout = ev.eval_loop_body(fi, w, wenv)
+    except Unsupported as e:
+        raise AnalysisError(f"{fi.qualname}: popping loop not modelled: {e}")
+    wpops = [e for e in wout.events if e.kind == "pop" and e.target == sname]
+    wother = [e for e in wout.events if e.target == sname and e.kind not in ("pop",)]
+    only_pop = len(wpops) == 1 and not wother and not wout.returns and not wout.continues
     if only_pop:
         res.ok("H3", f"{fi.qualname}:pop-only", "the inner loop only pops the chain (terminates: the test bounds the length from below)")
     else:
         res.violation("H3", mod, fi.name, w, "the inner loop does more than popping the top of the chain", ast.unparse(w)[:120], f"{sname}.pop()", construct="pop only")
     # push after pops, unconditional, of i
     after = loop.body[loop.body.index(w) + 1:]
-    push_ok = len(after) == 1 and ast.unparse(after[0]) == f"{sname}.append({loop.target.id})" and loop.body.index(w) == len(loop.body) - 2 \
-        and not any(isinstance(st, ast.Expr) and "append" in ast.unparse(st) for st in loop.body[:loop.body.index(w)])
+    fra = Frame(ev, fi, 0)
+    aenv = dict(benv)
+    fra.block(after, aenv, TRUE)
+    a_apps = [e for e in fra.events if e.kind == "append" and e.target == sname]
+    pre_apps = [e for e in frp.events if e.target == sname]
+    push_ok = len(a_apps) == 1 and a_apps[0].guard.kind == "true" and isinstance(a_apps[0].args[0], Rat) and a_apps[0].args[0].equals(i) and not pre_apps
     if push_ok:
         res.ok("H3", f"{fi.qualname}:push", "the offered index is pushed once, after the pops")
     else:
@@ -214,6 +251,9 @@ def _chain(rc: RuleCtx, name: str, pop_signs):
         test = fr2.cond(w.test, benv)
     except Unsupported as e:
         raise AnalysisError(f"{fi.qualname}: popping test not modelled: {e}")
+    # a pop happens iff the loop test holds and control reaches the pop (no earlier break)
+    if wpops:
+        test = g_and(test, wpops[0].guard)
     st_ = sym("stack", True)
     orient = _orientation(pts, _at(st_, C(-2)), _at(st_, C(-1)), i)
     turn = canon_sign(orient, pop_signs)
@@ -259,10 +299,14 @@ def _graham(rc: RuleCtx):
         raise AnalysisError("graham_scan: expected one pop in the popping loop")
     stk = pops[0].func.value.id
     env = {"points": pts, spname: sp, stk: ev.symbol("stack", True)}
-    # element p = sorted_points[i]; stack holds points
-    i = ev.symbol(loop.target.id)
-    env[loop.target.id] = i
+    # the scan positions: an index loop over sorted_points or direct iteration over sorted_points[3:]
+    from .common import bind_loop
     fr = Frame(ev, fi, 0)
+    b = bind_loop(ev, fr, loop, env)
+    if b is None:
+        raise AnalysisError("graham_scan: scan loop header has no recognised shape")
+    i = b.idx
+    env.update(b.bindings)
     pre_w = loop.body[:loop.body.index(w)]
     fr.block(pre_w, env, TRUE)
     # model stack elements as points: stack[-2] -> point symbols
@@ -316,15 +360,11 @@ def _graham(rc: RuleCtx):
     benv = dict(env)
     _check_dominated(rc, fi, w, stk, ev, benv)
     # seeds and range
-    ra = range_args(loop)
-    fr3 = Frame(ev, fi, 0)
-    lo = fr3.expr(ra[0], env) if ra and len(ra) == 2 else None
-    hi = fr3.expr(ra[1], env) if ra and len(ra) == 2 else None
-    if isinstance(lo, Rat) and lo.is_const() == 3 and isinstance(hi, Rat) and hi.equals(sym("m")):
+    if b.visits(3, sym("m")):
         res.ok("H5", "convex_hull.graham_scan:range", "first three sorted points seeded, the others offered once in sorted order")
     else:
         res.violation("H5", mod, fi.name, loop, "the scan does not offer the sorted points 3..m-1 once each after seeding the first three", ast.unparse(loop.iter),
-                      "range(3, len(sorted_points))", construct="graham range")
+                      "positions 3..len(sorted_points)-1", construct="graham range")
     # comparator
     ev2 = rc.new_eval()
     p0, pi, pj = ev2.point("p0"), ev2.point("pi"), ev2.point("pj")
